@@ -68,6 +68,7 @@ def run_e2(pid, part, tier, seed, tmp, only=None, concrete=False):
         return {"engine": "E2 symgroup", "part": name, "tool_error": "build failed:\n" + out[-3000:]}
     outp = os.path.join(tmp, name + ".json")
     cmd = [binp, "-tier", tier, "-seed", str(seed), "-out", outp]
+    only = only or part.get("only")
     if only:
         cmd += ["-only", only]
     if concrete:
